@@ -43,18 +43,47 @@ SHAPE_TEXT = {
     "leak:closing-brace": "the '}' closing a block (and what is glued to it by a newline) is reported as a directive name",
     "leak:brace-glued-name": "'{' glued to the directive name: name, brace and the first word of the block are reported as one string",
     "miscount:directive-after-block": "a directive that follows a block whose last entry has no ';' before '}' is not reported",
+    "platform-not-closed": "the reported ClusterPlatform is neither one of the eight platform constants nor other_<scheme> with <scheme> the "
+                           "trimmed text before the first '://' of a providerID that contains '://' (user-provided node id text leaves the cluster)",
+    "snapshot:report-without-graph": "a report is produced although the change processor holds no graph",
 }
+
+COUNT_NAMES = {"gc": "GatewayClassCount", "gw": "GatewayCount", "http": "HTTPRouteCount", "grpc": "GRPCRouteCount", "tls": "TLSRouteCount",
+               "sec": "SecretCount", "svc": "ServiceCount", "ep": "EndpointCount", "btp": "BackendTLSPolicyCount",
+               "gwcsp": "GatewayAttachedClientSettingsPolicyCount", "rtcsp": "RouteAttachedClientSettingsPolicyCount",
+               "obs": "ObservabilityPolicyCount", "usp": "UpstreamSettingsPolicyCount", "np": "NginxProxyCount", "sf": "SnippetsFilterCount"}
+
+
+def _kv(fields, sep=";"):
+    return dict(x.split("=", 1) for x in fields.split(sep) if "=" in x)
+
+
+def _history_replay(j, descr):
+    """readable form of an H judge line: per batch what happened, the snapshot counts and what was reported"""
+    out = []
+    for i, st in enumerate(j.split("steps=", 1)[1].split("|")):
+        f = _kv(st)
+        real = {k[2:]: v for k, v in f.items() if k.startswith("r_")}
+        snap = None if st.startswith("none") else {k: v for k, v in f.items() if not k.startswith("r_") and k != "r"}
+        out.append({"batch": descr[i] if i < len(descr) else f"b{i}",
+                    "snapshot(graph held by the processor + configuration built from it)": snap,
+                    "reported_counts": real or None})
+    return out
 
 
 def run(ctx):
     ctx.prepare()
     gw = _build_gateway(ctx)
     ctx.obligations("NGF.Props.C19")
+    ctx.obligations("NGF.Props.C19Truth")
     if ctx.tier == "thorough":
         ctx.leanchecker("NGF.Props.C19")
+        ctx.leanchecker("NGF.Props.C19Truth")
 
     n, nagg, nraw, nflags = (700, 250, 250, 80) if ctx.tier == "quick" else (40000, 15000, 15000, 2000)
+    nplat, nhist, nbatch = (150, 40, 7) if ctx.tier == "quick" else (4000, 1500, 9)
     args = ["-seed", ctx.seed, "-n", n, "-nagg", nagg, "-nraw", nraw, "-nflags", nflags,
+            "-nplat", nplat, "-nhist", nhist, "-nbatch", nbatch,
             "-corpus", os.path.join(vcheck.VERIF, "corpus", "C19")]
     if gw:
         args += ["-gw", gw]
@@ -65,6 +94,7 @@ def run(ctx):
         ctx.broken(f"harness run crashed (exit {ctx.harness_rc})", detail=getattr(ctx, "harness_err", ""))
 
     kinds, model_in, obs, mkind, judge_in, jkind = collections.Counter(), [], [], [], [], []
+    jdescr = {}
     inconclusive = collections.Counter()
     for l in lines:
         p = _parts(l)
@@ -77,13 +107,15 @@ def run(ctx):
         if "M" in p and "O" in p:
             model_in.append(p["M"]); obs.append(p["O"]); mkind.append(k)
         if "J" in p:
+            if "D" in p:
+                jdescr[len(judge_in)] = _unhex(p["D"]).split("\n")
             judge_in.append(p["J"]); jkind.append(k)
 
     # ---- the property, evaluated by the Lean judge on what the real code returned
     verdicts = ctx.driver("judge", judge_in)
     sig_hist, feat_hist = collections.Counter(), collections.Counter()
     judged_ok = 0
-    for j, k, v in zip(judge_in, jkind, verdicts):
+    for ji, (j, k, v) in enumerate(zip(judge_in, jkind, verdicts)):
         if v == "ok":
             judged_ok += 1
             continue
@@ -95,6 +127,21 @@ def run(ctx):
             sig_hist[s] += 1
             what = SHAPE_TEXT.get(s, f"telemetry report violates clause {s}")
             replay = {"judge_input": j, "case_kind": k, "offending_reported_string": _unhex(detail)}
+            if j.startswith("PL "):
+                f = dict(x.split("=", 1) for x in j.split(" ")[1:] if "=" in x)
+                replay = {"judge_input": j, "case_kind": k, "node_providerID": _unhex(f.get("pid", "_")),
+                          "node_labels": {_unhex(e.split(":")[0]): _unhex(e.split(":")[1]) for e in f.get("labels", "-").split(",") if ":" in e},
+                          "namespaces": [_unhex(x) for x in f.get("ns", "-").split(",") if x != "-"],
+                          "reported_ClusterPlatform": _unhex(f.get("platform", "_"))}
+            if j.startswith("H "):
+                step = _unhex(detail)
+                fld = s.split(":", 1)[1] if s.startswith("snapshot:") else s
+                if fld in COUNT_NAMES:
+                    what = (f"{COUNT_NAMES[fld]} is not the count of ONE snapshot: it differs from the count of the graph the change "
+                            "processor holds together with the configuration built from that graph (graph and configuration of "
+                            "different batches are mixed)")
+                replay = {"case_kind": k, "first_inconsistent_batch": step,
+                          "history": _history_replay(j, jdescr.get(ji, [])), "judge_input": j}
             if j.startswith("S "):
                 f = dict(x.split("=", 1) for x in j.split(" ")[1:] if "=" in x)
                 replay["snippets"] = [[_unhex(e.split(":")[0]), _unhex(e.split(":")[1])]
@@ -119,6 +166,7 @@ def run(ctx):
             ctx.finding(f"C19:{s}", f"SnippetsFilter telemetry: {what}" if s.split(":")[0] in ("leak", "miscount", "report")
                         else f"telemetry: {what}", replay)
 
+
     # ---- how many cases lie in the region where even the PRE-FIX collector was proved right (`isTidy`,
     # `directives_subset_of_parse_partial`, `fix_preserves_tidy`); a judge failure there is a broken tie
     s_idx = [i for i, j in enumerate(judge_in) if j.startswith("S ")]
@@ -136,6 +184,7 @@ def run(ctx):
 
     # ---- correspondence: the Lean model on the same inputs
     outs = ctx.driver("model", model_in)
+    hvariant = collections.Counter()  # handler histories: current code vs the success-only variant
     variant = collections.Counter()   # tokenizer = the model of the current code; prefix-split = the PRE-FIX variant
     mismatches = []
     for m, o, out, k in zip(model_in, obs, outs, mkind):
@@ -147,9 +196,20 @@ def run(ctx):
             else:
                 variant["prefix-split" if o == old else "neither"] += 1
                 mismatches.append((m, o, cur, k + (" [equals the PRE-FIX split-based model]" if o == old else "")))
+        elif m.startswith("H ") and " sout=" in out:
+            cur, so = out.split(" sout=")
+            if o == cur:
+                hvariant["current" if o != "out=" + so else "both"] += 1
+            else:
+                hvariant["success-only" if o == "out=" + so else "neither"] += 1
+                mismatches.append((m, o, cur, k + (" [equals the SUCCESS-ONLY variant: configuration stored only after a successful update]"
+                                                   if o == "out=" + so else "")))
         elif o != out:
             mismatches.append((m, o, out, k))
     diffs = len(mismatches)
+    if hvariant["success-only"]:
+        ctx.broken(f"the real handler + collector behave like the success-only variant on {hvariant['success-only']} histories: "
+                   "GetLatestConfiguration lags behind GetLatestGraph after a failed NGINX update", replay={"variant_histogram": dict(hvariant)})
     if variant["prefix-split"] and not variant["tokenizer"] and not variant["neither"]:
         ctx.broken(f"the real collector behaves like the PRE-FIX split-based collector on all {variant['prefix-split']} cases "
                    "where the two models differ: fix c8088bb is reverted", replay={"variant_histogram": dict(variant)})
@@ -168,7 +228,30 @@ def run(ctx):
     distinct = len(set(model_in))
     nontrivial = len({m for m, o in zip(model_in, obs)
                       if (m.startswith("S ") and "dirs=-" not in o) or (m.startswith("R ") and "routes=-" not in m)
-                      or (m.startswith("G ") and ":o:" in m and "757365722d646566696e6564" in o)})
+                      or (m.startswith("G ") and ":o:" in m and "757365722d646566696e6564" in o)
+                      or m.startswith("PL ") or (m.startswith("H ") and ("|c;" in m or "|e;" in m or "steps=c;" in m))})
+    # handler histories: measured sensitivity
+    hstat = collections.Counter()
+    for m, o in zip(model_in, obs):
+        if not m.startswith("H "):
+            continue
+        hstat["histories"] += 1
+        steps = [_kv(x) for x in o[4:].split("|")]
+        msteps = m.split("steps=", 1)[1].split("|")
+        for i, (st, ms) in enumerate(zip(steps, msteps)):
+            hstat["batches"] += 1
+            hstat["batches_" + {"n": "NoChange", "e": "EndpointsOnlyChange", "c": "ClusterStateChange"}[ms[0]]] += 1
+            if st.get("err") == "1":
+                hstat["batches_with_failed_update"] += 1
+            if "ep" not in st:
+                hstat["batches_without_report(no graph yet)"] += 1
+            if i > 0 and "ep" in steps[i - 1] and "ep" in st:
+                if st["ep"] != steps[i - 1]["ep"]:
+                    hstat["batches_changing_EndpointCount"] += 1
+                    if st.get("err") == "1":
+                        hstat["failed_batches_changing_EndpointCount(discriminate the success-only variant)"] += 1
+    plat_hist = collections.Counter(_unhex(o.split("=", 1)[1]).split("_")[0] + ("_<scheme>" if "_" in _unhex(o.split("=", 1)[1]) else "")
+                                    for m, o in zip(model_in, obs) if m.startswith("PL "))
     samples = []
     for m, o, k in list(zip(model_in, obs, mkind))[:400:80]:
         if m.startswith("S "):
@@ -187,6 +270,10 @@ def run(ctx):
         "correspondence_diffs": diffs,
         "collector_matches_model_variant": model_variant,
         "variant_histogram": dict(variant),
+        "handler_history_stats": dict(hstat),
+        "handler_variant_histogram": dict(hvariant),
+        "platform_cases": sum(plat_hist.values()),
+        "reported_platform_histogram": dict(plat_hist),
         "distinct_cases": distinct,
         "judged": len(judge_in),
         "judged_ok": judged_ok,
@@ -202,9 +289,13 @@ def run(ctx):
         "directive names of a snippet = first words of its depth-0 statements (nested block entries are not directive names of the context)",
         "snippet strings are valid UTF-8 (they arrive through the Kubernetes API as JSON)",
         "every pflag.Flag with Type()==\"bool\" is pflag's own boolValue (String() is true/false); pinned by the generated fact customFlagTypes",
-        "the graph/configuration handed to the collector are generated directly (not through BuildGraph): counts are judged against the "
-        "sizes of the maps/slices the collector is given",
+        "S/R streams: the graph/configuration handed to the collector are generated directly (not through BuildGraph): counts are judged "
+        "against the sizes of the maps/slices the collector is given; H stream: real change processor (BuildGraph), real BuildConfiguration, "
+        "real HandleEventBatch; NGINX itself is replaced by stubs that fail on demand (ReplaceFiles / Reload / Plus API)",
+        "the platform is read from nodes.Items[0] only (pinned fact platformFlow); providerIDs are valid UTF-8",
     ], trusted=[
         "overlay/cmd/gateway/zz_verif_c19.go (calls the real createStaticModeCommand/parseFlags inside package main)",
         "Lean lexer NGF.Model.SnippetLex as the meaning of 'directive name' (lossless: lex_lossless)",
+        "overlay/internal/mode/static/zz_verif_c19.go (constructs the real eventHandlerImpl; GetLatestConfiguration is the real method)",
+        "harness/c19/truth.go summarize(): reads the set sizes off the real graph.Graph / dataplane.Configuration",
     ])
